@@ -1,19 +1,13 @@
 SPECIFICATION SpecLegal
-CONSTANT Cfg <- MCCfg32
-CONSTANT MaxDem = 3
-INVARIANT Protocol
-INVARIANT MaskSound
-INVARIANT MaskShape
-INVARIANT CodeResolutionAdmissible
+CONSTANT Cfg <- MCCfg32q2
+CONSTANT MaxDem = 2
 INVARIANT FeasibleAlways
 INVARIANT CompletionIsFullSolution
 INVARIANT NoNegativeCapacity
 INVARIANT DenseTelescopes
 INVARIANT DenseEqSparse
 INVARIANT SparseZeroUntilEnd
-INVARIANT Total
 INVARIANT WithinHorizon
 INVARIANT EarlyLastIsCompletion
 INVARIANT CompletionEnds
-PROPERTY IllegalGoesToDepot
 CHECK_DEADLOCK FALSE
